@@ -182,3 +182,43 @@ impl PredicateT {
 }
 pub struct IfStatement { pub predicate: PredicateT, pub if_block: BlockT, pub else_block: Option<BlockT> }
 pub struct Not { pub inner: Box<ExprT> }
+
+// ---- block.rs / return.rs
+pub struct LocalT { pub id: Ghost<int> }
+impl Clone for LocalT {
+    #[verifier::external_body]
+    fn clone(&self) -> (r: Self) ensures r == *self { unimplemented!() }
+}
+impl LocalT {
+    #[verifier::external_body] pub fn apply_child_scope(self, child: LocalT) -> (r: LocalT) { unimplemented!() }
+}
+pub struct TypeStateB { pub local: LocalT, pub rest: Ghost<int> }
+impl Clone for TypeStateB {
+    #[verifier::external_body]
+    fn clone(&self) -> (r: Self) ensures r == *self { unimplemented!() }
+}
+pub struct TypeInfoB { pub state: TypeStateB, pub result: TypeDef }
+impl TypeInfoB {
+    pub fn new(state: TypeStateB, result: TypeDef) -> (r: TypeInfoB) ensures r.state == state, r.result == result { TypeInfoB { state, result } }
+}
+pub struct ExprB { pub id: Ghost<int> }
+impl ExprB {
+    pub uninterp spec fn spec_type(&self, s: TypeStateB) -> TypeDef;
+    pub uninterp spec fn spec_state(&self, s: TypeStateB) -> TypeStateB;
+    #[verifier::external_body]
+    pub fn apply_type_info(&self, state: &mut TypeStateB) -> (r: TypeDef)
+        ensures r == self.spec_type(*old(state)), *final(state) == self.spec_state(*old(state)),
+    { unimplemented!() }
+}
+pub struct Block { pub inner: Vec<ExprB>, pub new_scope: bool }
+/// the type state before the k-th expression of a block
+pub open spec fn state_before(inner: Seq<ExprB>, s0: TypeStateB, k: int) -> TypeStateB
+    decreases k
+{
+    if k <= 0 { s0 } else { inner[k - 1].spec_state(state_before(inner, s0, k - 1)) }
+}
+pub open spec fn type_of(inner: Seq<ExprB>, s0: TypeStateB, k: int) -> TypeDef { inner[k].spec_type(state_before(inner, s0, k)) }
+/// no expression before the k-th is typed `never` (i.e. the k-th expression is reachable)
+pub open spec fn reachable(inner: Seq<ExprB>, s0: TypeStateB, k: int) -> bool {
+    forall|i: int| 0 <= i < k ==> !(#[trigger] type_of(inner, s0, i)).spec_never()
+}
